@@ -386,8 +386,65 @@ def run(ctx, repo, tier):
         ctx.inconclusive("DOM", "C16.nonneg", "unit conversion or hash statement not recognised", where,
                          witness=f"conversions={len(convs)} hashes={len(hashes)}")
     else:
+        def restored_from_checked_memo(tgt):
+            """the statement restores a value read from a module-level memo whose every store site lies behind the check:
+            True / False (a store site escapes the check) / None (not such a statement)"""
+            from ..astutil import local_defs_with_unpack
+            ld = local_defs_with_unpack(init.node.body)
+            for st_ in ast.walk(init.node):          # definitions nested in branches as well
+                if isinstance(st_, ast.Assign) and len(st_.targets) == 1:
+                    t_ = st_.targets[0]
+                    if isinstance(t_, ast.Name):
+                        ld.setdefault(t_.id, st_.value)
+                    elif isinstance(t_, ast.Tuple):
+                        for e_ in t_.elts:
+                            if isinstance(e_, ast.Name):
+                                ld.setdefault(e_.id, st_.value)
+            v_ = tgt.stmt.value
+            seen_, cont = set(), None
+            stack_ = [v_]
+            mod_names = {n_.targets[0].id for n_ in init.module.tree.body if isinstance(n_, ast.Assign) and len(n_.targets) == 1 and
+                         isinstance(n_.targets[0], ast.Name) and isinstance(n_.value, (ast.Dict, ast.Call))}
+            while stack_:
+                e_ = stack_.pop()
+                for x_ in ast.walk(e_):
+                    if isinstance(x_, ast.Name) and x_.id in mod_names:
+                        cont = x_.id
+                    elif isinstance(x_, ast.Name) and x_.id in ld and x_.id not in seen_:
+                        seen_.add(x_.id)
+                        stack_.append(ld[x_.id])
+            if cont is None:
+                return None
+            # store sites of the container anywhere in the module
+            def stores_in(fn_node):
+                return [n_ for n_ in ast.walk(fn_node) if isinstance(n_, ast.Assign) and any(isinstance(t_, ast.Subscript) and
+                        isinstance(t_.value, ast.Name) and t_.value.id == cont for t_ in n_.targets)]
+            helper_names = {f_.name.split(".")[-1] for f_ in init.module.functions.values() if f_.cls is None and stores_in(f_.node)}
+            other = [f_ for c_ in init.module.classes.values() for f_ in c_.methods.values()
+                     if f_.name != "__init__" or c_.name != ci.name if stores_in(f_.node) or
+                     any(isinstance(n_, ast.Call) and isinstance(n_.func, ast.Name) and n_.func.id in helper_names for n_ in ast.walk(f_.node))]
+            if other:
+                return False
+            sites = [nd for nd in cfg.nodes if nd.stmt is not None and (
+                (isinstance(nd.stmt, ast.Assign) and nd.stmt in stores_in(init.node)) or
+                (isinstance(nd.stmt, ast.Expr) and isinstance(nd.stmt.value, ast.Call) and isinstance(nd.stmt.value.func, ast.Name) and
+                 nd.stmt.value.func.id in helper_names))]
+            if not sites:
+                return None
+            return all(any(cfg.dominates(c, sd) for c in checks) for sd in sites)
         for tgt, what in [(c, "unit conversion") for c in convs] + [(h, "hash") for h in hashes]:
             ok = any(cfg.dominates(c, tgt) for c in checks)
+            if not ok:
+                # several statements of this kind: judge each; a restore from a memo that is only filled behind the check is sound
+                rm = restored_from_checked_memo(tgt) if isinstance(tgt.stmt, ast.Assign) else None
+                if rm is True:
+                    ctx.ok("DOM", f"C16.nonneg.{what.split()[0]}", f"the {what} value is restored from a memo whose only store sites lie behind "
+                           "the non-negativity check (key soundness: CACHE rule)", where, norm_stmt(tgt.stmt))
+                    continue
+                if rm is False:
+                    ctx.inconclusive("DOM", f"C16.nonneg.{what.split()[0]}", f"the {what} value is restored from a memo that is also written "
+                                     "outside the checked constructor", where, norm_stmt(tgt.stmt))
+                    continue
             ctx.check(ok, "DOM", f"C16.nonneg.{what.split()[0]}", f"the non-negativity check dominates the {what} on every path", where,
                       norm_stmt(tgt.stmt), witness=f"a path reaches `{norm_stmt(tgt.stmt)}` without passing the check")
         # no re-definition of trans_grid between the check and the conversion (other than the conversion itself)
